@@ -60,7 +60,7 @@ def _work(prop, batch_seed, start, count, per_run_timeout):
             triple = m.generate(seed, prop)
             triple["run_index"] = i
             triple["batch_seed"] = batch_seed
-            res = m.execute(copy.deepcopy(triple), prop)
+            res = core.execute_machine(m, triple, prop)
             agg["runs"] += 1
             agg["ops"] += res["ops"]
             agg["probes"].update(res["probes"])
@@ -100,7 +100,7 @@ def replay_file(prop, path, quiet=False):
     with open(path) as f:
         rep = json.load(f)
     m = machine_for(prop)
-    res = m.execute(copy.deepcopy(rep["triple"]), prop)
+    res = core.execute_machine(m, rep["triple"], prop)
     v = res["violation"]
     exp = rep.get("expect", {})
     if v:
@@ -298,7 +298,7 @@ def main(argv=None):
             triple, execs = core.minimise(m, prop, triple, viol)
         except Exception:
             traceback.print_exc()
-    res = m.execute(copy.deepcopy(triple), prop)
+    res = core.execute_machine(m, triple, prop)
     if not res["violation"]:
         print("HARNESS-ERROR minimised triple does not fail")
         return 2
